@@ -559,7 +559,9 @@ class GeoBox(GeoBoxBase):
         ) -> BoundingBox:
             if isinstance(crs, str):
                 if crs.lower().startswith("utm"):
-                    return BoundingBox(*bbox, crs="epsg:4326").to_crs(crs)
+                    return BoundingBox(*bbox, crs="epsg:4326").to_crs(
+                        crs, resolution="auto"
+                    )
 
             return BoundingBox(*bbox, crs=(crs or "epsg:4326"))
 
@@ -655,7 +657,8 @@ class GeoBox(GeoBoxBase):
         if crs is None or isinstance(crs, Unset):
             crs = geopolygon.crs
         else:
-            geopolygon = geopolygon.to_crs(crs)
+            # densify: straight edges are curves in the other projection
+            geopolygon = geopolygon.to_crs(crs, resolution="auto")
 
         return GeoBox.from_bbox(
             geopolygon.boundingbox,
